@@ -177,12 +177,29 @@ def rule_G2(ctx):
     # clearing loop over all lines
     clear = None
     for lp in f.walk():
-        if lp["k"] == "for" and lp.get("init") is not None:
-            body_calls = [c for c in calls_in(lp["body"], "lbuf_globget")]
-            st = strip_casts(lp["body"]) if lp["body"] else None
-            if body_calls and lp["init"]["k"] == "bin" and cval(lp["init"]["r"]) == 0 and \
-                    lp["c"] is not None and "lbuf_len" in key(lp["c"]) and lp["c"]["op"] == "<":
-                clear = lp
+        if lp["k"] not in ("for", "while") or lp.get("c") is None:
+            continue
+        body_calls = [c for c in calls_in(lp["body"], "lbuf_globget")]
+        if not body_calls or any(True for _ in calls_in(lp["body"], ("ex_exec", "ex_command"))):
+            continue
+        iv = key(strip_casts(body_calls[0]["args"][1]))
+        c0 = lp["c"]
+        if c0["k"] != "bin" or c0["op"] not in ("<", ">") or "lbuf_len" not in key(c0):
+            continue
+        idx_side = c0["l"] if c0["op"] == "<" else c0["r"]
+        if key(strip_casts(idx_side)) != iv:
+            continue
+        start = None
+        if lp["k"] == "for" and lp.get("init") is not None and lp["init"]["k"] == "bin":
+            start = cval(lp["init"]["r"])
+        else:
+            inits = [n_ for n_, lv_, op_, r_ in stores(f.body)
+                     if lv_["k"] == "ref" and lv_["name"] == iv and op_ == "=" and
+                     f.cfg.dominates(n_, c0) and not any(x["id"] == n_["id"] for x in walk(lp))]
+            if inits:
+                start = cval(inits[-1]["r"])
+        if start == 0:
+            clear = lp
     if clear is None:
         ctx.violation("ec_glob", "marks cleared afterwards",
                       "no loop `for (i = 0; i < lbuf_len(xb); i++) lbuf_globget(...)` clears the "
